@@ -188,8 +188,8 @@ PROPERTY = {
     'lean_module': 'TracingModel.Props.C08E',
     'leanchecker_modules': ['TracingModel.Props.C08', 'TracingModel.Props.C08S', 'TracingModel.Props.C08T'],
     'namespace': 'C08',
-    'units': [],
-    'required_theorems': ['C08.interest_sound', 'C08.hint_sound', 'C08.stack_interest_sound', 'C08.stack_hint_sound', 'C08.tree_agrees', 'C08.stack_agrees', 'C08.f32_witness',
+    'units': ['Forwarding'],
+    'required_theorems': ['C08.vec_psf_needs_every_member', 'C08.interest_sound', 'C08.hint_sound', 'C08.stack_interest_sound', 'C08.stack_hint_sound', 'C08.tree_agrees', 'C08.stack_agrees', 'C08.f32_witness',
                           'C08.env_never_sound', 'C08.env_always_sound_partial', 'C08.f8_witness', 'C08.f33_repaired'],
     'streams': [_st, _sk, _sc, _sw, _th, _envleaf],
     'rule': 'random filter expressions (depth <= 4 quick / 6 thorough) over level thresholds, Targets strings, static closures with/without (honest) hints, context-dependent closures with/without hint and callsite closure, '
